@@ -18,7 +18,7 @@ Entry ==
             IN <<[k |-> "cb", set |-> IF dt' = adopted THEN 0 ELSE Abs(dt'), nrows |-> Len(rows)]>>
       [] last' = "Step" ->      \* what the integrator was asked for and what it returned (the scripted integrator of the adaptive replay plays it back)
             LET d == FixDir(dt, Top.target, Cur) c == ChooseStep(Top, d)
-            IN <<[k |-> "step", h |-> c.h, dT |-> Last(rows') - Cur, newDt |-> frames'[Len(frames')].newDt, nrows |-> Len(rows)]>>
+            IN <<[k |-> "step", h |-> c.h, dT |-> Last(rows') - Cur, newDt |-> frames'[Len(frames')].newDt, nrows |-> Len(rows), final |-> c.final]>>
       [] last' = "Fault" -> <<[k |-> "fault", pc |-> Top.pc, depth |-> Len(frames), nrows |-> Len(rows), cb |-> Top.cbOn, atTarget |-> (Cur = Top.target \/ Top.terminated)],
                               [k |-> "ret", p |-> Proj]>>
       [] last' = "Return" /\ frames' = << >> -> <<[k |-> "ret", p |-> Proj]>>
@@ -29,6 +29,7 @@ SimInit == Init /\ log = <<[k |-> "init", t0 |-> t0, tf |-> tf, dt0 |-> dt0]>>
 SimNext == Next /\ last' # "Underflow" /\ log' = log \o Entry
 (* roots of one event function are 4 ticks apart: a step that grew beyond 2 ticks could hide two crossings of one function *)
 SimConstraint == StateConstraint /\ Abs(dt) <= 2
+SimConstraintAd == StateConstraint /\ Abs(dt) <= 4
 SimSpec == SimInit /\ [][SimNext]_<<vars, log>>
 Finished == Idle /\ ncalls = MAXCALLS
 EmitLog == Finished => PrintT(<<"VFLOG", ToJson(log)>>)
